@@ -52,7 +52,8 @@ OPERATORS = {"add": operator.add, "subtract": operator.sub, "multiply": operator
              "absolute": abs}
 METHODS = {"sum": "sum", "prod": "prod", "mean": "mean", "cumsum": "cumsum", "transpose": "transpose", "around": "round",
            "amax": "max", "amin": "min"}
-REDUCE = {"sum": ("add", "reduce"), "cumsum": ("add", "accumulate"), "prod": ("multiply", "reduce")}
+REDUCE = {"sum": ("add", "reduce"), "cumsum": ("add", "accumulate"), "prod": ("multiply", "reduce"), "amax": ("maximum", "reduce"),
+          "amin": ("minimum", "reduce"), "all": ("logical_and", "reduce"), "any": ("logical_or", "reduce")}
 
 
 def gen_spell(tier, rng):
@@ -131,7 +132,9 @@ def spellings(inp):
         except Exception as e:
             return f"{label} raised {type(e).__name__}: {e} while numpoly.{f} returned normally"
         if isinstance(ref, str) or isinstance(r, str):
-            return None if ref == r else f"{label}: {r!r} vs numpoly.{f}: {ref!r}"
+            both = isinstance(ref, str) and isinstance(r, str)
+            show = lambda v: "raises FeatureNotSupported" if isinstance(v, str) else f"returns {type(v).__name__}"
+            return None if both else f"{label} {show(r)} while numpoly.{f} {show(ref)}"
         d = _equal_results(ref, r)
         return f"{label} differs from numpoly.{f}: {d}" if d else None
     npf = getattr(numpy, f, None) or getattr(numpy.linalg, f, None)
@@ -330,3 +333,34 @@ def out_spellings(inp):
         return f"numpy.{f}(..., out=x) raised {type(e).__name__}: {str(e)[:80]} (numpoly.{f}(..., out=x) returns normally)"
     d = _equal_results(ref, r2)
     return f"numpy.{f}(..., out=x) differs from numpoly.{f}(..., out=x): {d}" if d else None
+
+
+# ------------------------------------------------------------------ in-place operators on a target that lacks terms of the result
+def gen_inplace_lacking(tier, rng):
+    for op in ("iadd", "isub", "out_add"):
+        for case in ("new_indeterminate", "new_term_same_indeterminate", "constant_into_nonconstant"):
+            yield {"op": op, "case": case}
+
+
+@check("C08", "inplace.target_lacks_terms", gen_inplace_lacking, functions=("numpoly.simple_dispatch", "numpoly.ndpoly.__array_ufunc__"),
+       note="9 fixed inputs: x += y, x -= y and numpy.add(x, y, out=x) where the sum has a term x has no storage for (another indeterminate, "
+            "another power, a constant term): either the result equals x + y, or an exception says that the target cannot hold it - never a "
+            "silently different polynomial")
+def inplace_lacking(inp):
+    import numpoly
+    q0, q1 = numpoly.variable(2)
+    x = numpoly.polynomial([q0, 2 * q0])
+    y = {"new_indeterminate": q1, "new_term_same_indeterminate": q0 ** 2, "constant_into_nonconstant": 1}[inp["case"]]
+    want = x - y if inp["op"] == "isub" else x + y
+    try:
+        if inp["op"] == "iadd":
+            x += y
+        elif inp["op"] == "isub":
+            x -= y
+        else:
+            numpy.add(x, y, out=x)
+    except Exception:      # noqa: BLE001 - refusing is fine
+        return None
+    if not bool(numpy.all(x == want)):
+        return f"{inp['op']} with {inp['case']}: the target holds {x} afterwards, the sum is {want}; no exception was raised"
+    return None
